@@ -94,6 +94,9 @@ class Device:
         while unparsed_objects:
             obj = unparsed_objects.pop(0)
             if isinstance(obj, list):
+                # a group goes to the writer of its first element: all its members must be of that very type
+                if any(type(elem) is not type(obj[0]) for elem in flatten(obj)):
+                    raise TypeError(f'All the objects of a group must have the same type. Given {[type(e) for e in obj]}.')
                 d[type(obj[0])].append(obj)
             else:
                 d[type(obj)].append(obj)
